@@ -1,0 +1,265 @@
+// Copyright 2017 Pilosa Corp.
+//
+// Licensed under the Apache License, Version 2.0 (the "License");
+// you may not use this file except in compliance with the License.
+// You may obtain a copy of the License at
+//
+//     http://www.apache.org/licenses/LICENSE-2.0
+//
+// Unless required by applicable law or agreed to in writing, software
+// distributed under the License is distributed on an "AS IS" BASIS,
+// WITHOUT WARRANTIES OR CONDITIONS OF ANY KIND, either express or implied.
+// See the License for the specific language governing permissions and
+// limitations under the License.
+
+//go:build verif
+// +build verif
+
+package pilosa
+
+import (
+	"bytes"
+	"context"
+	"fmt"
+	"path/filepath"
+	"sort"
+	"strconv"
+	"strings"
+	"time"
+
+	"github.com/pilosa/pilosa/roaring"
+	"github.com/pilosa/pilosa/stats"
+)
+
+// Export shims for the verification harness (/verif, property C12). Add-only, tag-guarded.
+//
+// A VerifC12Frag drives one real fragment (stand-alone on a scratch file, or one owned by a
+// holder) through its unexported write paths and `top`, and records what the Go runtime decides
+// for the count cache: the order of equal counts in every rankCache.recalculate and lruCache.Top
+// (sort.Sort over a map iteration) and the order in which a batch's rows reach BulkAdd (map
+// iteration of rowSet). The cache itself is the real rankCache / lruCache / nopCache; calls are
+// passed through unchanged.
+
+// VerifC12Frag is a handle on a real fragment.
+type VerifC12Frag struct {
+	f      *fragment
+	events []string
+}
+
+// verifC12Cache passes every call to the real cache and records call order.
+type verifC12Cache struct {
+	inner cache
+	v     *VerifC12Frag
+}
+
+func (c *verifC12Cache) Add(id, n uint64) {
+	c.v.events = append(c.v.events, "A"+strconv.FormatUint(id, 10))
+	c.inner.Add(id, n)
+}
+func (c *verifC12Cache) BulkAdd(id, n uint64) {
+	c.v.events = append(c.v.events, "B"+strconv.FormatUint(id, 10))
+	c.inner.BulkAdd(id, n)
+}
+func (c *verifC12Cache) Get(id uint64) uint64         { return c.inner.Get(id) }
+func (c *verifC12Cache) Len() int                     { return c.inner.Len() }
+func (c *verifC12Cache) IDs() []uint64                { return c.inner.IDs() }
+func (c *verifC12Cache) Invalidate()                  { c.inner.Invalidate() }
+func (c *verifC12Cache) Recalculate()                 { c.inner.Recalculate() }
+func (c *verifC12Cache) SetStats(s stats.StatsClient) { c.inner.SetStats(s) }
+func (c *verifC12Cache) Top() []bitmapPair {
+	ps := c.inner.Top()
+	if _, ok := c.inner.(*lruCache); ok {
+		c.v.events = append(c.v.events, "t:"+verifC12PairIDs(ps))
+	}
+	return ps
+}
+
+func verifC12PairIDs(ps []bitmapPair) string {
+	ss := make([]string, len(ps))
+	for i, p := range ps {
+		ss[i] = strconv.FormatUint(p.ID, 10)
+	}
+	if len(ss) == 0 {
+		return "-"
+	}
+	return strings.Join(ss, ",")
+}
+
+// verifC12Stats observes rankCache.recalculate through the gauge it reports: at that point
+// c.rankings holds the freshly sorted list of all entries.
+type verifC12Stats struct {
+	stats.StatsClient
+	rc *rankCache
+	v  *VerifC12Frag
+}
+
+func (s *verifC12Stats) Gauge(name string, value float64, rate float64) {
+	if name == "RankCache" {
+		s.v.events = append(s.v.events, "r:"+verifC12PairIDs(s.rc.rankings))
+	}
+}
+
+func (v *VerifC12Frag) instrument() {
+	if _, ok := v.f.cache.(*verifC12Cache); ok {
+		return
+	}
+	if rc, ok := v.f.cache.(*rankCache); ok {
+		rc.SetStats(&verifC12Stats{StatsClient: stats.NopStatsClient, rc: rc, v: v})
+	}
+	v.f.cache = &verifC12Cache{inner: v.f.cache, v: v}
+}
+
+// VerifC12OpenFragment opens a stand-alone fragment on a file in dir.
+func VerifC12OpenFragment(dir, cacheType string, cacheSize uint32) (*VerifC12Frag, error) {
+	f := newFragment(filepath.Join(dir, "0"), "i", "f", viewStandard, 0, 0)
+	f.CacheType = cacheType
+	f.CacheSize = cacheSize
+	f.RowAttrStore = nopStore
+	if err := f.Open(); err != nil {
+		return nil, err
+	}
+	v := &VerifC12Frag{f: f}
+	v.instrument()
+	return v, nil
+}
+
+// VerifC12HolderFragment returns (creating it if needed) the standard-view fragment of a field.
+func VerifC12HolderFragment(h *Holder, index, field string, shard uint64) (*VerifC12Frag, error) {
+	fld := h.Field(index, field)
+	if fld == nil {
+		return nil, ErrFieldNotFound
+	}
+	view, err := fld.createViewIfNotExists(viewStandard)
+	if err != nil {
+		return nil, err
+	}
+	f, err := view.CreateFragmentIfNotExists(shard)
+	if err != nil {
+		return nil, err
+	}
+	v := &VerifC12Frag{f: f}
+	v.instrument()
+	return v, nil
+}
+
+// Close closes a stand-alone fragment.
+func (v *VerifC12Frag) Close() error { return v.f.Close() }
+
+// SetThrottled makes the next rankCache.invalidate a no-op (true) or a recalculation (false).
+func (v *VerifC12Frag) SetThrottled(b bool) {
+	w, _ := v.f.cache.(*verifC12Cache)
+	if w == nil {
+		return
+	}
+	if rc, ok := w.inner.(*rankCache); ok {
+		rc.mu.Lock()
+		if b {
+			rc.updateTime = time.Now()
+		} else {
+			rc.updateTime = time.Time{}
+		}
+		rc.mu.Unlock()
+	}
+}
+
+// Drain returns and forgets the recorded events: "r:<ids>" one per recalculation (all entries in
+// sorted order), "t:<ids>" one per lruCache.Top, "A<id>" / "B<id>" one per Add / BulkAdd.
+func (v *VerifC12Frag) Drain() []string {
+	ev := v.events
+	v.events = nil
+	return ev
+}
+
+func (v *VerifC12Frag) SetBit(row, col uint64) (bool, error)   { return v.f.setBit(row, col) }
+func (v *VerifC12Frag) ClearBit(row, col uint64) (bool, error) { return v.f.clearBit(row, col) }
+func (v *VerifC12Frag) ClearRow(row uint64) (bool, error)      { return v.f.clearRow(row) }
+func (v *VerifC12Frag) SetRow(row uint64, cols []uint64) (bool, error) {
+	return v.f.setRow(NewRow(cols...), row)
+}
+func (v *VerifC12Frag) Import(rows, cols []uint64, clear bool) error {
+	return v.f.bulkImport(append([]uint64(nil), rows...), append([]uint64(nil), cols...), &ImportOptions{Clear: clear})
+}
+func (v *VerifC12Frag) ImportRoaring(rows, cols []uint64, clear bool) error {
+	bm := roaring.NewBitmap()
+	for i := range rows {
+		if _, err := bm.Add(rows[i]*ShardWidth + cols[i]%ShardWidth); err != nil {
+			return err
+		}
+	}
+	var buf bytes.Buffer
+	if _, err := bm.WriteTo(&buf); err != nil {
+		return err
+	}
+	return v.f.importRoaring(context.Background(), buf.Bytes(), clear)
+}
+func (v *VerifC12Frag) Recalculate() { v.f.RecalculateCache() }
+
+// Reopen closes the fragment (flushing the cache ids) and opens it again. The recalculation done
+// by openCache happens before the new cache can be observed, so its outcome (the rankings) is
+// reported as an "r:" event afterwards.
+func (v *VerifC12Frag) Reopen() error {
+	if w, ok := v.f.cache.(*verifC12Cache); ok {
+		v.f.cache = w.inner
+	}
+	if err := v.f.Close(); err != nil {
+		return err
+	}
+	if err := v.f.Open(); err != nil {
+		return err
+	}
+	if rc, ok := v.f.cache.(*rankCache); ok {
+		v.events = append(v.events, "r:"+verifC12PairIDs(rc.rankings))
+	}
+	v.instrument()
+	return nil
+}
+
+// Top runs fragment.top.
+func (v *VerifC12Frag) Top(n int, hasSrc bool, src []uint64, ids []uint64, minThreshold uint64) ([]Pair, error) {
+	opt := topOptions{N: n, RowIDs: ids, MinThreshold: minThreshold}
+	if hasSrc {
+		opt.Src = NewRow(src...)
+	}
+	return v.f.top(opt)
+}
+
+// CacheDump renders the cache: entries by id, and for the rank cache the rankings, threshold and
+// whether the next invalidate is throttled.
+func (v *VerifC12Frag) CacheDump() string {
+	c := v.f.cache
+	if w, ok := c.(*verifC12Cache); ok {
+		c = w.inner
+	}
+	showMap := func(m map[uint64]uint64) string {
+		ids := make([]uint64, 0, len(m))
+		for id := range m {
+			ids = append(ids, id)
+		}
+		sort.Slice(ids, func(i, j int) bool { return ids[i] < ids[j] })
+		ss := make([]string, len(ids))
+		for i, id := range ids {
+			ss[i] = fmt.Sprintf("%d:%d", id, m[id])
+		}
+		return "{" + strings.Join(ss, " ") + "}"
+	}
+	switch c := c.(type) {
+	case *rankCache:
+		c.mu.Lock()
+		defer c.mu.Unlock()
+		rs := make([]string, len(c.rankings))
+		for i, p := range c.rankings {
+			rs[i] = fmt.Sprintf("%d:%d", p.ID, p.Count)
+		}
+		return fmt.Sprintf("ranked %s rank=[%s] thr=%d", showMap(c.entries), strings.Join(rs, " "), c.thresholdValue)
+	case *lruCache:
+		m := map[uint64]uint64{}
+		for _, id := range c.IDs() {
+			if n, ok := c.counts[id]; ok {
+				m[id] = n
+			}
+		}
+		return fmt.Sprintf("lru %s len=%d", showMap(m), c.Len())
+	default:
+		return "none"
+	}
+}
